@@ -10,8 +10,9 @@
    reversed / len on the module list, with Python's clamping of bounds).  field w p fk = the members of one field of owner p (its children of the field's kinds).
    Only property theorems here; proofs in Proofs/SetOpsProofs.v, ModListProofs.v, SeqOpsProofs.v, SymxProofs.v, WorldInv.v,
    WorldProps.v.
-   Known finding (recorded as D4, refused by the model with Err EImpossible): item / slice assignment of a module that
-   stays elsewhere in the same list, or of a list with repetitions -- see C16_same_list_assignment_refused. *)
+   Item / slice assignment of a module that already sits elsewhere in the same list, or of a list with repetitions
+   (the former finding D4, repaired in ListWrapper.__setitem__): the module is moved, not duplicated -- it stays only at
+   the last position it was assigned to; see C16_same_list_assignment_moves. *)
 From Coq Require Import ZArith List Bool.
 From V Require Import Result LazyTree World WorldGuard WorldRun ForestDefs InvDefs WorldInv WorldProps.
 From V Require SetOpsProofs ModListProofs SymxProofs.
@@ -319,8 +320,12 @@ Theorem C16_modlist_setitem : forall w known ir i v k old, reachable_k w known -
                             else if x =? old then Some (with_par (getn w old) None) else nodes w x) /\
     par w' v = Some ir /\ (v <> old -> par w' old = None).
 Proof.
-  intros w known ir i v k old R.
-  exact (ModListProofs.setitem_effect w known ir i v k old (reach_forest w known R) (reach_cache w known R)).
+  intros w known ir i v k old R G En Eo Hv.
+  destruct (ModListProofs.setitem_effect w known ir i v k old (reach_forest w known R) (reach_cache w known R) G En Eo)
+    as (w' & Hs & Hk & Hrest).
+  exists w'. split; [exact Hs|]. split; [|exact Hrest].
+  rewrite Hk. apply (ModListProofs.setitem_list_fresh _ k v old Hv); [|exact Eo].
+  apply (f_nodup w known (reach_forest w known R)).
 Qed.
 
 Theorem C16_modlist_setitem_index_error : forall w ir i v,
@@ -342,21 +347,51 @@ Theorem C16_modlist_setslice : forall w known ir a b vs, reachable_k w known -> 
     (forall x, nodes w' x = if mem x vs then Some (with_par (getn w x) (Some ir))
                             else if mem x victims then Some (with_par (getn w x) None) else nodes w x).
 Proof.
-  intros w known ir a b vs R.
-  exact (ModListProofs.setslice_effect w known ir a b vs (reach_forest w known R) (reach_cache w known R)).
+  intros w known ir a b vs R G l lo hi pre victims post Hnd Hout.
+  destruct (ModListProofs.setslice_effect w known ir a b vs (reach_forest w known R) (reach_cache w known R) G)
+    as (w' & Hs & Hk & Hrest).
+  exists w'. split; [exact Hs|]. split; [|exact Hrest].
+  rewrite Hk. apply ModListProofs.setslice_list_separate; assumption.
 Qed.
 
-(* the known finding: the same-list shapes are refused by the model (the implementation corrupts the list there) *)
-Theorem C16_same_list_assignment_refused :
-  (forall w ir i v k old, norm_index i (length (kids w ir)) = Some k -> nth_error (kids w ir) k = Some old ->
-     In v (kids w ir) -> v <> old -> step w (OModSetItem ir i v) = Err EImpossible) /\
-  (forall w ir a b vs,
+(* the same-list shapes (the former finding D4): a module assigned while it already sits elsewhere in this list, or named
+   more than once on the right-hand side, is moved -- the list keeps no duplicate, the replaced elements that are not
+   assigned again leave the list and lose their owner, everything in the list is owned by this IR *)
+Theorem C16_same_list_assignment_moves :
+  (forall w known ir i v k old, reachable_k w known -> op_okb w known (OModSetItem ir i v) = true ->
+     norm_index i (length (kids w ir)) = Some k -> nth_error (kids w ir) k = Some old -> In v (kids w ir) -> v <> old ->
+     exists w', step w (OModSetItem ir i v) = Ok w' /\
+       kids w' ir = assign_slice (kids w ir) k (S k) [v] /\
+       NoDup (kids w' ir) /\ (forall x, In x (kids w' ir) <-> In x (kids w ir) /\ x <> old) /\
+       par w' v = Some ir /\ par w' old = None) /\
+  (forall w known ir a b vs, reachable_k w known -> op_okb w known (OModSetSlice ir a b vs) = true ->
      let l := kids w ir in
      let lo := norm_bound a 0 (length l) in
      let hi := Z.max lo (norm_bound b (Z.of_nat (length l)) (length l)) in
-     (exists v, In v vs /\ (In v (firstn (Z.to_nat lo) l) \/ In v (skipn (Z.to_nat hi) l))) \/ ~ NoDup vs ->
-     step w (OModSetSlice ir a b vs) = Err EImpossible).
-Proof. exact (conj ModListProofs.setitem_effect_refused ModListProofs.setslice_effect_refused). Qed.
+     let victims := ModListProofs.slice_victims l lo hi in
+     exists w', step w (OModSetSlice ir a b vs) = Ok w' /\
+       NoDup (kids w' ir) /\
+       (forall x, In x (kids w' ir) <-> In x vs \/ (In x l /\ ~ In x victims)) /\
+       (forall x, In x (kids w' ir) -> par w' x = Some ir) /\
+       (forall x, In x l -> ~ In x (kids w' ir) -> par w' x = None)).
+Proof.
+  split.
+  - intros w known ir i v k old R.
+    exact (ModListProofs.setitem_effect_moves w known ir i v k old (reach_forest w known R) (reach_cache w known R)).
+  - intros w known ir a b vs R.
+    exact (ModListProofs.setslice_effect_moves w known ir a b vs (reach_forest w known R) (reach_cache w known R)).
+Qed.
+
+(* where the moved module lands, and that the others keep their relative order *)
+Theorem C16_same_list_setitem_position : forall (l : list id) k v old j,
+  NoDup l -> nth_error l k = Some old -> v <> old -> index_of v l = Some j ->
+  nth_error (assign_slice l k (S k) [v]) (k - (if (j <? k)%nat then 1 else 0)) = Some v /\
+  filter (fun x => negb (x =? v)) (assign_slice l k (S k) [v]) = filter (fun x => negb (x =? v)) (remove_id old l).
+Proof.
+  intros l k v old j Hnd Ho Hne Hj.
+  exact (conj (ModListProofs.setitem_list_moved_position l k v old j Hnd Ho Hne Hj)
+              (ModListProofs.setitem_list_moved_order l k v old Hnd Ho Hne)).
+Qed.
 
 Theorem C16_modlist_clear : forall w known ir, reachable_k w known -> op_okb w known (OModClear ir) = true ->
   exists w', step w (OModClear ir) = Ok w' /\
@@ -588,7 +623,8 @@ Proof. intros w known o R. exact (keyerror_iff w known o (invall_reachable w kno
 (* non-vacuity: IRs 1, 2; modules 3, 4, 5; sections 6, 7; interval 8.  extend; insert of a module already in the list
    (moved to the front); reverse; append to the other IR (moved); item assignment with a negative index of a module
    owned by the other IR (moved, the replaced module detached); set update with two iterables, |= moving a section,
-   ^= moving it back; then the failures with the built-in exception types and the refused same-list shapes. *)
+   ^= moving it back; then the failures with the built-in exception types; the same-list assignments succeed (see
+   C16_same_list_assignment_example below for their results). *)
 Example C16_example :
   let build := [ONew 1 KIR 101 None 0 0 0 PNone; ONew 2 KIR 102 None 0 0 0 PNone; ONew 3 KMod 103 None 0 0 0 PNone;
      ONew 4 KMod 104 None 0 0 0 PNone; ONew 5 KMod 105 None 0 0 0 PNone; ONew 6 KSec 106 None 0 0 0 PNone;
@@ -611,10 +647,39 @@ Example C16_example :
   map outcome [OModRemove 1 5; OModPop 1 7; OModDelItem 1 (-3); OSet 3 [KSec] SRemove [[7]]; OSet 4 [KSec] SPop [];
                OSymxPopitem 8; OSymxDel 8 3; OModSetItem 1 0 3; OModSetSlice 1 (Some 0) (Some 1) [3]]
   = [(true, Some EValue); (true, Some EIndex); (true, Some EIndex); (true, Some EKey); (true, Some EKey);
-     (true, Some EKey); (true, Some EKey); (true, Some EImpossible); (true, Some EImpossible)] /\
+     (true, Some EKey); (true, Some EKey); (true, None); (true, None)] /\
   (kids (step' w7 (OModSetSlice 1 (Some 1) None [5; 3])) 1, kids (step' w7 (OModDelSlice 1 (Some (-1)) None)) 1,
    kids (step' w7 (OModClear 1)) 1, kids (step' w7 (OModPop 1 (-2))) 1) = ([4; 5; 3], [4], [], [3]).
 Proof. vm_compute. repeat split. Qed.
+
+(* non-vacuity of C16_same_list_assignment_moves: in the reachable world w7 above (ir.modules of IR 1 = [4; 3]) the
+   premises of the item case hold for `modules[1] = modules[0]` (module 4, at position 0, assigned to position 1: it is
+   moved there and module 3 leaves) and for `modules[0] = modules[1]`; slice assignments naming a module twice, or naming
+   one that sits outside the slice, keep it once, at the last position it was assigned to *)
+Example C16_same_list_assignment_example :
+  let h7 := [ONew 1 KIR 101 None 0 0 0 PNone; ONew 2 KIR 102 None 0 0 0 PNone; ONew 3 KMod 103 None 0 0 0 PNone;
+     ONew 4 KMod 104 None 0 0 0 PNone; ONew 5 KMod 105 None 0 0 0 PNone; ONew 6 KSec 106 None 0 0 0 PNone;
+     ONew 7 KSec 107 None 0 0 0 PNone; ONew 8 KBI 108 None 4 0 0 PNone;
+     OModExtend 1 [3; 4; 5]; OModInsert 1 0 5; OModReverse 1; OModAppend 2 3; OModSetItem 1 (-1) 3;
+     OSet 3 [KSec] SUpdate [[6]; [7]]; OSet 4 [KSec] SIor [[6]]; OSet 3 [KSec] SIxor [[6; 7]]] in
+  let w7 := fst (run_guarded w0 [] h7) in
+  let known := snd (run_guarded w0 [] h7) in
+  let after o := let w' := step' w7 o in (kids w' 1, kids w' 2, map (par w') [3; 4; 5]) in
+  reachable_k w7 known /\ kids w7 1 = [4; 3] /\ map (par w7) [3; 4; 5] = [Some 1; Some 1; None] /\
+  (op_okb w7 known (OModSetItem 1 1 4) = true /\ norm_index 1 (length (kids w7 1)) = Some 1%nat /\
+   nth_error (kids w7 1) 1 = Some 3 /\ In 4 (kids w7 1) /\ 4 <> 3) /\
+  after (OModSetItem 1 1 4) = ([4], [], [None; Some 1; None]) /\
+  after (OModSetItem 1 0 3) = ([3], [], [Some 1; None; None]) /\
+  op_okb w7 known (OModSetSlice 1 (Some 0) (Some 1) [5; 5]) = true /\
+  after (OModSetSlice 1 (Some 0) (Some 1) [5; 5]) = ([5; 3], [], [Some 1; None; Some 1]) /\
+  after (OModSetSlice 1 (Some 0) (Some 1) [3]) = ([3], [], [Some 1; None; None]) /\
+  after (OModSetSlice 1 (Some 1) None [4; 5; 4]) = ([5; 4], [], [None; Some 1; Some 1]) /\
+  after (OModSetSlice 1 None None [3; 5; 3; 4]) = ([5; 3; 4], [], [Some 1; Some 1; Some 1]).
+Proof.
+  cbv zeta. split.
+  - eexists. symmetry. apply surjective_pairing.
+  - vm_compute. repeat split; try reflexivity; try discriminate. left. reflexivity.
+Qed.
 
 Print Assumptions C16_set_add.
 Print Assumptions C16_set_discard.
@@ -642,7 +707,8 @@ Print Assumptions C16_modlist_delslice.
 Print Assumptions C16_modlist_setitem.
 Print Assumptions C16_modlist_setitem_index_error.
 Print Assumptions C16_modlist_setslice.
-Print Assumptions C16_same_list_assignment_refused.
+Print Assumptions C16_same_list_assignment_moves.
+Print Assumptions C16_same_list_setitem_position.
 Print Assumptions C16_modlist_clear.
 Print Assumptions C16_modlist_reverse.
 Print Assumptions C16_modlist_index.
@@ -666,3 +732,4 @@ Print Assumptions C16_remove_id_keeps_order.
 Print Assumptions C16_failed_op_leaves_state.
 Print Assumptions C16_keyerror_exactly_builtin.
 Print Assumptions C16_example.
+Print Assumptions C16_same_list_assignment_example.
